@@ -5,13 +5,22 @@ import fcntl, hashlib, json, os, random, re, subprocess, sys, time, glob, shutil
 
 ROOT = os.path.dirname(os.path.dirname(os.path.abspath(__file__)))
 REPO = os.environ.get('VERIF_REPO', '/repo')
-BUILD = os.path.join(ROOT, '.build')
+# checks of /repo use .build/; a scratch worktree (VERIF_REPO=/tmp/wt) gets its own build tree
+BUILD = os.path.join(ROOT, '.build') if REPO == '/repo' else os.path.join(ROOT, '.build', 'alt-' + hashlib.sha1(REPO.encode()).hexdigest()[:8])
 HOOKS = os.path.join(BUILD, 'hooks')
-COQ = os.path.join(ROOT, 'coq')
+COQ_SRC = os.path.join(ROOT, 'coq')
+COQ = COQ_SRC
+ALT = REPO != '/repo'
+if ALT:
+    # private copy of the Coq development (its gen/*.v are regenerated from the scratch worktree)
+    COQ = os.path.join(BUILD, 'coq')
+    os.makedirs(COQ, exist_ok=True)
+    subprocess.run(['rsync', '-a', '--delete', '--exclude', 'gen/*.v', '--exclude', 'Makefile*', '--exclude', '.Makefile.d',
+                    '--exclude', '_CoqProject', COQ_SRC + '/', COQ + '/'], check=True)
 EXTRACT = os.path.join(ROOT, 'extract')
 HARNESS = os.path.join(ROOT, 'harness')
 GENINC = os.path.join(BUILD, 'geninc')
-EVID = os.path.join(ROOT, 'evidence')
+EVID = os.path.join(ROOT, 'evidence') if REPO == '/repo' else os.path.join(BUILD, 'evidence')
 REPLAY = os.path.join(EVID, 'replay')
 NCPU = 16
 
@@ -120,8 +129,11 @@ def impl_compile_flags(flavor='hooks'):
     return inc, defs + san, libs
 
 
-def ensure_vdriver(flavor='hooks'):
-    """(re)build harness/vdriver against .build/<flavor>; one object per vd_*.cpp."""
+def ensure_vdriver(flavor='hooks', units=None):
+    """(re)build harness/vdriver against .build/<flavor>; one object per vd*.cpp.  `units` names the
+    translation units (basenames without .cpp) this check needs; other units that fail to compile are
+    left out (so one property's driver code cannot break another property's check)."""
+    required = set(units or []) | {'vdriver'}
     d = ensure_impl(flavor)
     run_cpp_translators()
     inc, defs, libs = impl_compile_flags(flavor)
@@ -144,11 +156,27 @@ def ensure_vdriver(flavor='hooks'):
         for s, o in jobs:
             cmd = ['g++', '-O1', '-g0', '-c', s, '-o', o] + inc + defs
             procs.append((s, subprocess.Popen(cmd, stdout=subprocess.PIPE, stderr=subprocess.STDOUT)))
+        skipped = []
         for s, p in procs:
             out, _ = p.communicate()
             if p.returncode != 0:
-                raise BuildError('vdriver does not compile against the working tree (%s):\n%s' % (s, out.decode()[-6000:]))
-        if jobs or not os.path.exists(exe):
+                unit = os.path.basename(s)[:-4]
+                if unit in required or units is None and False:
+                    raise BuildError('vdriver does not compile against the working tree (%s):\n%s' % (s, out.decode()[-6000:]))
+                log('vdriver: unit %s does not compile, left out' % unit)
+                skipped.append(os.path.join(odir, unit + '.o'))
+        for o in list(objs):
+            if o in skipped or not os.path.exists(o):
+                if os.path.basename(o)[:-2] in required:
+                    raise BuildError('vdriver unit %s missing' % o)
+                objs.remove(o)
+                if os.path.exists(o):
+                    os.remove(o)
+        stamp = os.path.join(odir, 'units.txt')
+        ulist = ' '.join(sorted(objs))
+        relink = (not os.path.exists(stamp)) or open(stamp).read() != ulist
+        if jobs or relink or not os.path.exists(exe):
+            open(stamp, 'w').write(ulist)
             _, defs2, _ = impl_compile_flags(flavor)
             san = [x for x in defs2 if x.startswith('-fsanitize')]
             rc, out = sh(['g++', '-o', exe] + objs + san + libs, timeout=600)
